@@ -532,12 +532,77 @@ func c19Verbatim(c *Ctx) {
 					}
 				}
 			})
+			// or through a predicate helper: `if !isHostPort(addr) { return error }`
+			eachInstr(fn, func(i ssa.Instruction) {
+				call, isCall := i.(*ssa.Call)
+				if !isCall || !isHostPortPredicate(call.Call.StaticCallee()) {
+					return
+				}
+				for _, f := range factsAt(mu.Block()) {
+					if f.Cond == ssa.Value(call) && f.Val {
+						nSplit++
+					}
+				}
+			})
 			if !okLen || nSplit != 2 {
 				ok, why = false, fmt.Sprintf("four-part check=%v, validated addresses=%d (want 2)", okLen, nSplit)
 			}
 		}
 	}
 	c.Check(ok, key, rCT, "4 parts; both validated; src → append(dst)", why, c.fnAt(fn))
+}
+
+// isHostPortPredicate: a one-parameter function returning bool that is true only
+// when net.SplitHostPort accepted its parameter.
+func isHostPortPredicate(h *ssa.Function) bool {
+	if h == nil || len(h.Blocks) == 0 || len(h.Params) != 1 || h.Signature.Results().Len() != 1 {
+		return false
+	}
+	if b, ok := h.Signature.Results().At(0).Type().Underlying().(*types.Basic); !ok || b.Kind() != types.Bool {
+		return false
+	}
+	calls := callsNamed(h, "net.SplitHostPort")
+	if len(calls) != 1 {
+		return false
+	}
+	call := calls[0].(*ssa.Call)
+	if call.Call.Args[0] != ssa.Value(h.Params[0]) {
+		return false
+	}
+	var errEx ssa.Value
+	for _, r := range refs(call) {
+		if ex, ok := r.(*ssa.Extract); ok && ex.Index == 2 {
+			errEx = ex
+		}
+	}
+	if errEx == nil {
+		return false
+	}
+	ifi := errNotNilIf(call, call)
+	okAll := true
+	n := 0
+	eachInstr(h, func(i ssa.Instruction) {
+		ret, isR := i.(*ssa.Return)
+		if !isR {
+			return
+		}
+		n++
+		switch v := ret.Results[0].(type) {
+		case *ssa.BinOp:
+			if !(v.Op == token.EQL && v.X == errEx && isNilConst(v.Y)) {
+				okAll = false
+			}
+		case *ssa.Const:
+			if v.Value == nil || ifi == nil {
+				okAll = false
+			} else if constant.BoolVal(v.Value) && !edgeDominates(ifi.Block(), 1, ret.Block()) {
+				okAll = false // true returned although the address was rejected
+			}
+		default:
+			okAll = false
+		}
+	})
+	return okAll && n > 0
 }
 
 func c19Special(c *Ctx) {
